@@ -40,7 +40,7 @@ CONFIGS = {
     'rel_exec_hadd_ci': ['-DCMAKE_BUILD_TYPE=RelWithDebInfo', '-DBUILD_EXECUTOR=ON', '-DHEURISTIC_TYPE=h_add', '-DCHECK_INCONSISTENCIES=ON'],
     'dbg_par': ['-DCMAKE_BUILD_TYPE=Debug', '-DPARALLELIZE=ON'],
     'rel_par': ['-DCMAKE_BUILD_TYPE=RelWithDebInfo', '-DPARALLELIZE=ON'],
-    'asan': ['-DCMAKE_BUILD_TYPE=Debug', '-DCMAKE_CXX_FLAGS=-fsanitize=address,undefined -fno-omit-frame-pointer -fno-sanitize-recover=undefined'],
+    'asan': ['-DCMAKE_BUILD_TYPE=Debug', '-DCMAKE_CXX_FLAGS=-fsanitize=address,undefined -fno-sanitize=vptr -fno-omit-frame-pointer -fno-sanitize-recover=undefined'],
     'tsan_par': ['-DCMAKE_BUILD_TYPE=RelWithDebInfo', '-DPARALLELIZE=ON', '-DCMAKE_CXX_FLAGS=-fsanitize=thread -g'],
 }
 
